@@ -14,6 +14,8 @@ import (
 
 func init() {
 	reg("C07_Create", C07_Create)
+	reg("C07_CreateCounterReadFault", C07_CreateCounterReadFault)
+	reg("C07_HandOverCounterReadFault", C07_HandOverCounterReadFault)
 	reg("C07_HandOverAtCurrentOwner", C07_HandOverAtCurrentOwner)
 	reg("C07_HandOverAtNextOwner", C07_HandOverAtNextOwner)
 	reg("C08_CreateStoresMetadata", C08_CreateStoresMetadata)
@@ -32,9 +34,32 @@ var nonceOpt = Opt{GasEnough: true, NoRAE: true, Direct: true, Small: true, Fixe
 
 // C07_Create: a successful ESDTNFTCreate returns and stores previous counter + 1, and the
 // created entry lives under that nonce (key suffix = metadata nonce = returned nonce).
-func C07_Create() {
-	s := scnNFTCreate(nonceOpt)
+func C07_Create() { createCheck(false) }
+
+// C07_CreateCounterReadFault: the same when the read of the counter may fail: a create that
+// succeeds all the same still continues after the stored counter - an unreadable counter is not
+// "no nonce issued yet".
+func C07_CreateCounterReadFault() { createCheck(true) }
+
+// C07_HandOverCounterReadFault: likewise the hand-over ships the stored counter or fails.
+func C07_HandOverCounterReadFault() {
+	counterReadFaults = true
+	C07_HandOverAtCurrentOwner()
+}
+
+var counterReadFaults bool
+
+func createCheck(readFaults bool) {
+	o := nonceOpt
+	o.Thin = readFaults
+	s := scnNFTCreate(o)
+	s.W.CounterReadFaults = readFaults
 	s.Run()
+	s.W.CounterReadFaults = false
+	if readFaults {
+		verif.Reach("counter-read-failed", s.W.ReadFaultHit)
+		verif.Reach("counter-read-failed-and-rejected", verif.And(s.W.ReadFaultHit, s.Err != nil))
+	}
 	if s.Err != nil {
 		verif.Reach("rejected", true)
 		return
@@ -101,7 +126,12 @@ func C07_HandOverAtCurrentOwner() {
 	s.DstAddr = newOwner
 	s.In = w.Input(vmcommon.ESDTSCAddress, s.Dst.Addr, [][]byte{tok, newOwner})
 	s.Fn, _ = builtInFunctions.NewESDTNFTCreateRoleTransfer(w.Codec, w.Accounts, w.Shards)
+	w.CounterReadFaults = counterReadFaults
 	s.Run()
+	w.CounterReadFaults = false
+	if counterReadFaults {
+		verif.Reach("counter-read-failed", w.ReadFaultHit)
+	}
 	if s.Err != nil {
 		verif.Reach("rejected", true)
 		return
